@@ -34,7 +34,7 @@ class WbDecWorld(World):
     )
 
     def runs(self, prop, tier):
-        return {"quick": 1600, "thorough": 50000}[tier]
+        return {"quick": 6000, "thorough": 80000}[tier]
 
     def gen_config(self, rng, prop):
         dw = rng.choice([8, 16, 32, 64])
